@@ -331,6 +331,19 @@ fn keyobj_inputs<B: Backend>(rec: &mut Recorder, rng: &mut Prng) {
 
 fn grammar<B: Backend>(rec: &mut Recorder, rng: &mut Prng, cfg: &Cfg) {
     keyobj_inputs::<B>(rec, rng);
+    // every text length: a value's serde form is its text whatever the length (buffers in a Serialize impl have sizes)
+    {
+        let v = <B::V as Version>::HEADER;
+        let k = <B::V as Version>::PASERK_HEADER;
+        for n in (0..=430usize).chain(762..=774) {
+            let b = crate::b64::enc(&rng.bytes(n));
+            emit_parse::<SealedToken<B::V, Local, Raw, Vec<u8>>>(rec, B::NAME, "token.local", &format!("{v}.local.{b}"));
+            emit_parse::<KeyText<B::V, Local>>(rec, B::NAME, "key.local", &format!("{k}.local.{b}"));
+            if n % 2 == 0 {
+                emit_parse::<SealedToken<B::V, Public, Raw, Vec<u8>>>(rec, B::NAME, "token.public", &format!("{v}.public.{b}.{}", crate::b64::enc(&rng.bytes(n % 11))));
+            }
+        }
+    }
     let be = B::NAME;
     let v = <B::V as Version>::HEADER;
     let k = <B::V as Version>::PASERK_HEADER;
